@@ -2137,8 +2137,9 @@ class t2data(object):
                 if 'eos' in self.multi:
                     if self.multi['eos']: aut2eosname = self.multi['eos'].strip()
             if not aut2eosname and self.simulator:
+                simulator = self.simulator.rstrip()
                 for eosname in supported_eos.keys():
-                    if self.simulator.endswith(eosname) and \
+                    if simulator.endswith(eosname) and \
                        len(eosname) > len(aut2eosname): aut2eosname = eosname
         else:
             if isinstance(eos, int):
